@@ -1237,10 +1237,19 @@ func (g *gen) composeSelect(db *MDB, t, other *MTable) string {
 	}
 	if r.Chance(0.35) {
 		if r.Chance(0.6) {
-			q += fmt.Sprintf(" LIMIT %d", r.Intn(6))
+			lim := int64(r.Intn(6))
+			if r.Chance(0.15) {
+				// "no upper bound" idioms and other large operands (all within int64)
+				lim = []int64{9223372036854775807, 9223372036854775806, 4294967296, 2147483648, 1000000}[r.Intn(5)]
+			}
+			q += fmt.Sprintf(" LIMIT %d", lim)
 		}
 		if r.Chance(0.7) {
-			q += fmt.Sprintf(" OFFSET %d", r.Intn(8))
+			off := int64(r.Intn(8))
+			if r.Chance(0.1) {
+				off = []int64{9223372036854775807, 4294967296, 2147483647, 100000}[r.Intn(4)]
+			}
+			q += fmt.Sprintf(" OFFSET %d", off)
 		}
 	}
 	return q
